@@ -290,35 +290,115 @@ inductive FileRead where
   | noFile
   | eof (s : St)
   | got (r : String) (s : St)
+  /-- the file is still being written by an open output stream of the program: what a reader sees depends on
+  buffering — outside the profile -/
+  | busy
 
-/-- next record of a named file (`getline < name`): opens it on first use; changes neither NR nor FNR -/
+def validOutName (name : String) : Bool :=
+  !name.isEmpty && name.toList.all (fun c => c.isAlphanum || c == '.' || c == '_')
+
+/-- the file a pipe command writes.  The one command shape inside the profile is `cat > NAME`: the shell truncates
+NAME when the command is started and `cat` copies everything the program writes into the pipe -/
+def pipeTarget (cmd : String) : Option String :=
+  let pre := "cat > ".toList
+  let l := cmd.toList
+  if pre.isPrefixOf l then
+    let name := String.ofList (l.drop pre.length)
+    if validOutName name then some name else none
+  else none
+
+/-- does the open output stream with key `k` (a file name for `>`/`>>`, the command text for `|`) write file `name`? -/
+def writesTo (name : String) (k : String) : Bool := k == name || pipeTarget k == some name
+
+/-- the first record of a file that is opened for reading (and the reader that is registered for it) -/
+def openReader (name : String) (content : String) (s : St) : FileRead :=
+  match splitRecords content with
+  | [] => .eof { s with readers := setAssoc name [] s.readers }
+  | r :: rs => .got r { s with readers := setAssoc name rs s.readers }
+
+/-- next record of a named file (`getline < name`): opens it on first use; changes neither NR nor FNR.  A file the
+program itself has written (through `>`, `>>` or a `| "cat > name"` pipe) can be read back once every output stream
+writing it has been closed: the reader then sees exactly what was written, in the order it was written -/
 def readFile (name : String) (s : St) : FileRead :=
   match s.readers.lookup name with
   | some [] => .eof s
   | some (r :: rs) => .got r { s with readers := setAssoc name rs s.readers }
   | none =>
     match s.fsys.find? (fun f => f.name == name) with
-    | none => .noFile
-    | some f =>
-      match splitRecords f.content with
-      | [] => .eof { s with readers := setAssoc name [] s.readers }
-      | r :: rs => .got r { s with readers := setAssoc name rs s.readers }
+    | some f => openReader name f.content s
+    | none =>
+      if s.openOuts.any (writesTo name) then .busy else
+      match s.outFiles.lookup name with
+      | none => .noFile
+      | some content => openReader name content s
+
+/-- what an input-pipe command delivers -/
+inductive CmdSrc where
+  | file (name : String)   -- `cat NAME`
+  | text (t : String)      -- `echo WORDS`
+  deriving DecidableEq, Repr
+
+def isWord (w : List Char) : Bool := !w.isEmpty && w.all Char.isAlphanum
+
+/-- the two command shapes inside the profile: `cat NAME` and `echo w1 w2 …` (alphanumeric words, single blanks) -/
+def cmdSource (cmd : String) : Option CmdSrc :=
+  let l := cmd.toList
+  if "cat ".toList.isPrefixOf l then
+    let name := String.ofList (l.drop 4)
+    if validOutName name then some (.file name) else none
+  else if "echo ".toList.isPrefixOf l then
+    let ws := splitOn ' ' (l.drop 5)
+    if ws.all isWord then some (.text (String.ofList (l.drop 5) ++ "\n")) else none
+  else none
+
+/-- does the open reader with key `k` (a file name, or the command text of an input pipe) read file `name`? -/
+def readsFrom (name : String) (k : String) : Bool := k == name || cmdSource k == some (.file name)
+
+/-- next record of an input pipe (`cmd | getline`): the command is started on first use (its reader is kept under the
+command text, so `close(cmd)` restarts it).  `.busy` = outside the profile (unknown command, `cat` of a file that
+does not exist or is still being written) -/
+def readCmd (cmd : String) (s : St) : FileRead :=
+  match s.readers.lookup cmd with
+  | some [] => .eof s
+  | some (r :: rs) => .got r { s with readers := setAssoc cmd rs s.readers }
+  | none =>
+    match cmdSource cmd with
+    | none => .busy
+    | some (.text t) => openReader cmd t s
+    | some (.file name) =>
+      match s.fsys.find? (fun f => f.name == name) with
+      | some f => openReader cmd f.content s
+      | none =>
+        if s.openOuts.any (writesTo name) then .busy else
+        match s.outFiles.lookup name with
+        | none => .busy
+        | some content => openReader cmd content s
 
 /-! ## output -/
 
-def validOutName (name : String) : Bool :=
-  !name.isEmpty && name.toList.all (fun c => c.isAlphanum || c == '.' || c == '_')
-
-def emitTo (append : Bool) (name : String) (text : String) : M Unit := fun s =>
+/-- append `text` to the output stream with key `key` writing file `name`; opening it truncates the file unless
+`append`.  Outside the profile: a second stream on a file that another open stream writes, writing a file that is
+being read, writing an input file -/
+def emitStream (append : Bool) (key name : String) (text : String) : M Unit := fun s =>
   if !validOutName name then .err (.outside "output file name") else
   if s.fsys.any (fun f => f.name == name) then .err (.outside "output to an input file") else
-  if s.openOuts.contains name then
+  if s.openOuts.contains key then
     .ok () { s with outFiles := setAssoc name (((s.outFiles.lookup name).getD "") ++ text) s.outFiles }
+  else if s.openOuts.any (writesTo name) then .err (.outside "two output streams on one file")
+  else if s.readers.any (fun kr => readsFrom name kr.1) then .err (.outside "output to a file that is being read")
   else if append then
-    .ok () { s with openOuts := name :: s.openOuts,
+    .ok () { s with openOuts := key :: s.openOuts,
                     outFiles := setAssoc name (((s.outFiles.lookup name).getD "") ++ text) s.outFiles }
   else
-    .ok () { s with openOuts := name :: s.openOuts, outFiles := setAssoc name text s.outFiles }
+    .ok () { s with openOuts := key :: s.openOuts, outFiles := setAssoc name text s.outFiles }
+
+def emitTo (append : Bool) (name : String) (text : String) : M Unit := emitStream append name name text
+
+/-- `print … | cmd` -/
+def emitPipe (cmd : String) (text : String) : M Unit :=
+  match pipeTarget cmd with
+  | none => fail "pipe command outside the profile"
+  | some name => emitStream false cmd name text
 
 def emitStdout (text : String) : M Unit := modifyS fun s => { s with out := s.out ++ text }
 
@@ -538,6 +618,7 @@ def eval : Nat → Expr → M Val
         | none => fun s =>
           match readFile (toStr fv) s with
           | .noFile => .ok (.num (-1)) s
+          | .busy => .err (.outside "getline from a file that is open for output")
           | .eof s' => .ok (.num 0) s'
           | .got r s' => (do setRecord r; pure (.num 1) : M Val) s'
         | some l => do
@@ -546,8 +627,27 @@ def eval : Nat → Expr → M Val
           fun s =>
             match readFile (toStr fv) s with
             | .noFile => .ok (.num (-1)) s
+            | .busy => .err (.outside "getline from a file that is open for output")
             | .eof s' => .ok (.num 0) s'
             | .got r s' => (do writeLoc loc (mkInput r); pure (.num 1) : M Val) s'
+    | .getlineCmd lv ce => do
+      let cv ← eval fuel ce
+      match lv with
+      | none => fun s =>
+        match readCmd (toStr cv) s with
+        | .noFile => .err (.outside "input pipe command")
+        | .busy => .err (.outside "input pipe command outside the profile")
+        | .eof s' => .ok (.num 0) s'
+        | .got r s' => (do setRecord r; pure (.num 1) : M Val) s'
+      | some l => do
+        let loc ← evalLoc fuel l
+        touchLoc loc
+        fun s =>
+          match readCmd (toStr cv) s with
+          | .noFile => .err (.outside "input pipe command")
+          | .busy => .err (.outside "input pipe command outside the profile")
+          | .eof s' => .ok (.num 0) s'
+          | .got r s' => (do writeLoc loc (mkInput r); pure (.num 1) : M Val) s'
     | .close e => do
       let v ← eval fuel e
       closeStream (toStr v)
@@ -625,6 +725,9 @@ def emit : Nat → Redir → String → M Unit
     | .append fe => do
       let v ← eval fuel fe
       emitTo true (toStr v) text
+    | .pipe ce => do
+      let v ← eval fuel ce
+      emitPipe (toStr v) text
 
 def exec : Nat → Stmt → M Ctl
   | 0, _ => fun _ => .err .fuel
